@@ -525,7 +525,17 @@ func c04Functions(c *Ctx) {
 		id := fmt.Sprintf("c04.func.%d", h)
 		for i := 0; i < 3+c.Rng.Intn(6); i++ {
 			_ = ask(e)
-			switch c.Rng.Intn(3) {
+			switch c.Rng.Intn(4) {
+			case 3:
+				// drop the compiled matchers (ClearPolicy invalidates) and put the rules back: the
+				// recompiled matcher must still call the function registered FIRST
+				keep, _ := e.GetPolicy()
+				keep = append([][]string(nil), keep...)
+				e.ClearPolicy()
+				for _, r := range keep {
+					_, _ = e.AddPolicy(toIface(r)...)
+				}
+				trace = append(trace, "ClearPolicy+re-add")
 			case 0:
 				again := c.Rng.Intn(len(fam))
 				e.AddFunction("pick", fam[again]) // ignored: the name is taken
